@@ -39,6 +39,11 @@ def plan(tier, seed):
         for err in (False, True):
             for target in (2, 4, 8):
                 shards.append(dict(start=start, err=err, target=target, k=k))
+                if err:
+                    # the error present at the start carries the status code
+                    # that a later error will carry again
+                    shards.append(dict(start=start, err=err, target=target,
+                                       k=min(k, 1), code0=0x1b))
     # the status word's other bits (0x20 device identification loaded,
     # reserved upper bits) set, no error
     for start in (1, 2, 4, 8):
@@ -59,12 +64,14 @@ def plan(tier, seed):
 
 
 def run_one(start, err, target, lats, acklat, errpoll, extra=0,
-            timeout=50):
+            timeout=50, code0=0):
     """returns (events, outcome) outcome = ('ret', value) | ('exc', repr)"""
     t = bus.SimTerminal("T", station=77)
     t.al_extra = extra
     t.al_state = start
     t.al_error = err
+    if err:
+        t.al_code = code0
     latmap = {(1, 2): lats[0], (2, 4): lats[1], (4, 8): lats[2]}
     t.al_latency = lambda frm, to: latmap.get((frm, to),
                                               acklat if to == 1 else 0)
@@ -274,11 +281,15 @@ def run_shard(params):
         for acklat in (range(k + 2) if err else [0]):
             for errpoll in [None, 2, 3, 4, 5, 6, 7]:
                 evs, out, t = run_one(start, err, target, lats, acklat,
-                                      errpoll, params.get("extra", 0))
+                                      errpoll, params.get("extra", 0),
+                                      code0=params.get("code0", 0))
+                if params.get("code0"):
+                    res.count("behaviours_whose_errors_carry_the_same_code")
                 if params.get("extra"):
                     res.count("behaviours_with_other_status_bits_set")
                 desc = dict(start=NAMES[start], error=err,
                             other_status_bits=params.get("extra", 0),
+                            first_error_code=params.get("code0", 0),
                             target=NAMES[target], latencies=lats,
                             ack_latency=acklat, error_at_poll=errpoll)
                 nreq = sum(1 for e in evs if e[0] == "al_control")
